@@ -36,6 +36,7 @@ OnOp(s, e) ==
 On(s, e) ==
   CASE e.e = "op" -> OnOp(s, e)
     [] e.e = "advance" -> [st |-> s, cl |-> <<>>]
+    [] e.e = "newclient" -> [st |-> [s EXCEPT !.nops = 0, !.rebootPending = FALSE, !.failsSinceReboot = 0], cl |-> <<>>]
     [] e.e = "reboot" -> [st |-> [s EXCEPT !.rebootPending = s.nops > 0, !.failsSinceReboot = 0], cl |-> <<>>]
     [] OTHER -> [st |-> s, cl |-> << <<"MACHINERY_unknown_event", FALSE>> >>]
 Init == tid \in 1..Len(Traces) /\ l = 1 /\ st = St0 /\ verdict = <<"ok", 0>>
